@@ -16,6 +16,7 @@ import (
 
 var repoDir = "/repo"
 var verifDir = "/verif"
+var outDir = "" // where evidence and replays of the last run go (default: verifDir); VERIF_OUT redirects scratch runs
 
 func init() {
 	if d := os.Getenv("VERIF_REPO"); d != "" {
@@ -23,6 +24,10 @@ func init() {
 	}
 	if d := os.Getenv("VERIF_DIR"); d != "" {
 		verifDir = d
+	}
+	outDir = verifDir
+	if d := os.Getenv("VERIF_OUT"); d != "" {
+		outDir = d
 	}
 }
 
